@@ -127,6 +127,15 @@ func (t *tr2) assignedOutside(n ast.Node, exclude ...types.Object) []types.Objec
 			if tgt, m, _, ok := t.atomicCall(x); ok && (m == "Add" || m == "Store") {
 				add(tgt)
 			}
+			if sel, ok := x.Fun.(*ast.SelectorExpr); ok { // call of a receiver-mutating method
+				if s := t.info.Selections[sel]; s != nil && s.Kind() == types.MethodVal {
+					if m, ok := s.Obj().(*types.Func); ok {
+						if fi := t.g.fns[m]; fi != nil && fi.mut {
+							add(sel.X)
+						}
+					}
+				}
+			}
 		case *ast.FuncLit:
 			return false
 		}
@@ -269,8 +278,22 @@ func (t *tr2) checkWritable(e ast.Expr) {
 		t.fail(e, "write into a slice that is not a plain local variable")
 		return
 	}
-	if o := t.info.Uses[id]; o == nil || !t.fresh[o] {
+	o := t.info.Uses[id]
+	if o == nil || !t.fresh[o] {
 		t.fail(e, "write into slice %s: only slices created by make in this function and never aliased may be written (slice parameters would leak the write to the caller)", id.Name)
+		return
+	}
+	// copies of the slice are harmless when they are all made after this write has happened for
+	// the last time: after the outermost loop that contains the write (or after the write itself)
+	limit := e.End()
+	if len(t.loops) > 0 {
+		limit = t.loops[0].End()
+	}
+	for _, at := range t.aliasAt[o] {
+		if at < limit {
+			t.fail(e, "write into slice %s, which is copied to another variable or literal before the write (or inside the same loop)", id.Name)
+			return
+		}
 	}
 }
 
@@ -718,7 +741,9 @@ func (t *tr2) rangeStmt(x *ast.RangeStmt, c *fctx, rest func() string) string {
 	}
 	pat, val := tuple(vars)
 	lc := t.loopCtx(c, val)
+	t.loops = append(t.loops, x)
 	body := t.stmts(x.Body.List, lc, func() string { return lc.next })
+	t.loops = t.loops[:len(t.loops)-1]
 	var loop string
 	switch {
 	case isString(xt):
@@ -808,7 +833,9 @@ func (t *tr2) forStmt(x *ast.ForStmt, c *fctx, rest func() string) string {
 	vars := t.assignedOutside(x.Body, io)
 	pat, val := tuple(vars)
 	lc := t.loopCtx(c, val)
+	t.loops = append(t.loops, x)
 	body := t.stmts(x.Body.List, lc, func() string { return lc.next })
+	t.loops = t.loops[:len(t.loops)-1]
 	loop := "(count_loop (R:=" + c.rty + ") (fun " + ident(iv.Name) + " " + funPat(pat) + " =>\n " + body + ") " + lo + " " + hi + " " + val + ")"
 	return wrapBinds(pre, "(loop_k "+loop+"\n (fun "+funPat(pat)+" =>\n "+rest()+")\n (fun r_ => "+c.ret("r_")+"))")
 }
